@@ -1,6 +1,7 @@
 package csnode
 
 import (
+	"time"
 	"encoding/json"
 	"fmt"
 	"math/rand"
@@ -25,4 +26,37 @@ func TestDebugNode(t *testing.T) {
 		fmt.Println("EV", e)
 	}
 	fmt.Println("PROBLEM", problem)
+}
+
+func TestDebugAbstract(t *testing.T) {
+	p := os.Getenv("VERIF_DEBUG_IN")
+	if p == "" {
+		t.Skip()
+	}
+	bs, _ := os.ReadFile(p)
+	var c absCase
+	if err := json.Unmarshal(bs, &c); err != nil {
+		t.Fatal(err)
+	}
+	var real []int
+	for _, n := range c.Real {
+		real = append(real, c.Idx[n])
+	}
+	cl := NewCluster(4, real, 1200*time.Millisecond)
+	a := &absRun{cl: cl, c: c, rnd: rand.New(rand.NewSource(1)), names: map[string]*Block{}, polkas: map[int32]string{},
+		heldPV: map[string]map[int32][]heldVote{}, heldPC: map[string]map[int32][]heldVote{}, shownPC: map[string]map[int32]int{}, prop: map[int32]absStep{}}
+	for _, n := range c.Real {
+		a.heldPV[n], a.heldPC[n], a.shownPC[n] = map[int32][]heldVote{}, map[int32][]heldVote{}, map[int32]int{}
+	}
+	problem := a.run()
+	for _, e := range cl.Rec.Events() {
+		delete(e, "_raw")
+		delete(e, "_pi")
+		if e["ev"] == "walwrite" || e["ev"] == "walsync" {
+			continue
+		}
+		fmt.Println("EV", e)
+	}
+	fmt.Println("PROBLEM", problem)
+	cl.Close()
 }
